@@ -21,7 +21,8 @@ type halfPipe struct {
 	wclose bool // writer closed: reader drains then gets EOF
 	rclose bool // reader closed: writer gets ErrClosedPipe
 	rng    *rand.Rand
-	frag   int // max fragment per Read (0 = unlimited)
+	frag   int  // max fragment per Read (0 = unlimited)
+	gated  bool // reads block while set (a reader that does not read: back-pressure on the writer)
 }
 
 func newHalf(limit, frag int, seed int64) *halfPipe {
@@ -56,7 +57,7 @@ func (h *halfPipe) write(p []byte) (int, error) {
 func (h *halfPipe) read(p []byte) (int, error) {
 	h.mu.Lock()
 	defer h.mu.Unlock()
-	for len(h.buf) == 0 && !h.wclose && !h.rclose {
+	for (len(h.buf) == 0 || h.gated) && !h.wclose && !h.rclose {
 		h.cond.Wait()
 	}
 	if h.rclose {
@@ -112,6 +113,14 @@ func (c *memConn) Close() error {
 		c.r.mu.Unlock()
 	})
 	return nil
+}
+
+// SetReadGate(true) makes this end stop reading (its Read calls block) until SetReadGate(false).
+func (c *memConn) SetReadGate(closed bool) {
+	c.r.mu.Lock()
+	c.r.gated = closed
+	c.r.cond.Broadcast()
+	c.r.mu.Unlock()
 }
 
 // CloseWrite half-closes: the peer reads what is buffered, then EOF.
